@@ -1672,9 +1672,13 @@ class Node:
                 f"No peers in realm {realm_name} configured for the "
                 f"application and no default peer connections exist")
 
-        usable_peers = [
-            peer for peer in peer_list
-            if peer.connection and peer.connection.state in PEER_READY_STATES]
+        # the connection thread may take a peer's connection away at any
+        # moment: read each peer's connection once
+        usable_peers = []
+        for peer in peer_list:
+            conn = peer.connection
+            if conn and conn.state in PEER_READY_STATES:
+                usable_peers.append(peer)
 
         if not usable_peers:
             raise NotRoutable("No connections is available to route to")
@@ -1685,6 +1689,8 @@ class Node:
             peer = usable_peers[0]
             self.logger.debug(f"Selected only available peer {peer.connection} for app {app}")
         conn = peer.connection
+        if conn is None:
+            raise NotRoutable("The selected connection has gone away")
 
         if not message.header.hop_by_hop_identifier:
             message.header.hop_by_hop_identifier = conn.hop_by_hop_seq.next_sequence()
